@@ -47,6 +47,16 @@ C = {
          "prev<cur<new and inside each source must be preserved and dense.", TRUST + " Uses the cfg(aquavm_verif) event sink.", "ordering monitor over hook events", "5/C12"),
  "C13": ("Event sink reports every stream append, canon snapshot and fold visit; checked: no double insertion, no lost append, "
          "snapshots equal appends so far, folds visit each value at most once and every generation head.", TRUST + " Uses the cfg(aquavm_verif) event sink.", "exactly-once monitor over hook events", "5/C13"),
+ "C16": ("Reference-model monitor: an independent sequential evaluator of the C16 fragment (written from the language documentation over the "
+         "harness's own syntax tree and the deterministic service model) gives the calls the sequential reading makes; every call request of every "
+         "run of generated multi-peer histories must be one of them (same peer, service, function, argument values), with multiplicity.",
+         TRUST + " The reference evaluator (harness/src/oracle/seqsem.rs) is part of the trusted base; inclusion only (calls that wait forever are not violations).",
+         "reference-model monitor (sequential evaluator) over histories", "5/C16"),
+ "C17": ("For every request matched by the sequential reference evaluator, each argument's tetraplet must equal the provenance the evaluator carries "
+         "(literal/built-in, producing call, lens accessor sequence, fold iterator index), wherever the value was produced; a generated canon-stream "
+         "workload checks that elements of #can, #can.$.[i], paths into elements and iterators over #can keep the element's own origin.",
+         TRUST + " Lenses compared as accessor sequences; scalar accessors accepted as written or resolved; functors counted only.",
+         "reference-model monitor (provenance-carrying evaluator)", "5/C17"),
  "C18": ("Differential on the real interpreter: each generated instruction (15 kinds of catchable, uncatchable, succeeding and waiting "
          "instructions) in a generated context is driven to the end twice on one peer, bare and wrapped in (xor F observer); the observer "
          "must be requested exactly for catchable failures and must receive the code and message the bare run reports.",
@@ -78,8 +88,6 @@ NOT_BUILT = {
  "C08": "not claimed: the order/grouping differential monitor (DESIGN 5/C08) was not built in the time available; no check exists, nothing is asserted",
  "C14": "not claimed: the forged-result fault enumeration (DESIGN 5/C14) was not built in the time available (the tamper module is used by C01 only for crash detection)",
  "C15": "not claimed: the incompatible-versions fault enumeration (DESIGN 5/C15) was not built in the time available",
- "C16": "not claimed: the sequential reference evaluator (DESIGN 5/C16) was not built in the time available",
- "C17": "not claimed: needs the sequential reference evaluator with provenance (DESIGN 5/C17), not built",
 }
 
 checks = []
